@@ -654,7 +654,9 @@ impl<'a> Searcher<'a> {
         // Prevents infinite loops and repeated listings when following symlinks:
         // every real directory is searched once, however its path is spelled
         // (also for a root without the option: another root of the same query may have reached it through a link)
-        if !self.visited_dirs.insert(PathBuf::from(&canonical_path)) {
+        // (keyed by the path itself, not by its printable form: names that are not valid text must not collide)
+        let visited_key = fs::canonicalize(dir).unwrap_or_else(|_| PathBuf::from(&canonical_path));
+        if !self.visited_dirs.insert(visited_key) {
             return Ok(());
         }
 
